@@ -534,7 +534,7 @@ Proof. intros H. rewrite Cosine_eq, Cosine_shape_outside by exact H. ring. Qed.
 Lemma Rabs_quot (a b : R) : Rabs (a / b) = Rabs a / Rabs b.
 Proof. unfold Rdiv. rewrite Rabs_mult, Rabs_inv. reflexivity. Qed.
 Lemma Bell_eq (c w s h x : R) : Bell_membership c w s h x = h * Bell_shape c w s x.
-Proof. openTB. unspecTB. rewrite Rabs_quot. ring. Qed.
+Proof. openTB. unspecTB. rewrite Rabs_quot. rewrite ?(Rmult_comm s 2). ring. Qed.   (* `2*s` or `s*2` in the exponent *)
 
 Lemma Bell_shape_bounds (c w s x : R) : 0 < Bell_shape c w s x <= 1.
 Proof.
